@@ -18,7 +18,7 @@ def rand_params(rng: random.Random, cls: str, small: bool = True) -> dict:
         return {"warning_level": w, "drift_level": w + rng.uniform(0.1, 2.0), "min_num_instances": mn}
     if cls == "RDDM":
         w = rng.uniform(0.3, 2.0)
-        mc = rng.choice([1, 2, 3, 5, 9, 20])
+        mc = rng.choice([1, 2, 3, 5, 9, 20, 70, 130])
         return {"warning_level": w, "drift_level": w + rng.uniform(0.1, 1.5), "min_num_instances": mn,
                 "min_concept_size": mc, "max_concept_size": rng.choice([mc, mc + 3, 15, 40, 100, -1, 0]),
                 "max_num_instances_warning": rng.choice([0, 1, 2, 4, 10, -1])}
@@ -40,7 +40,7 @@ def rand_params(rng: random.Random, cls: str, small: bool = True) -> dict:
             p["lambda_"] = rng.choice([0.05, 0.1, 0.3, 0.6, 1.0, rng.uniform(0.01, 1.0)])
         return p
     if cls == "ADWIN":
-        return {"clock": rng.choice([1, 1, 2, 3, 8, 32]), "delta": rng.choice([0.002, 0.05, 0.3, 0.8, rng.uniform(0.001, 0.99)]),
+        return {"clock": rng.choice([1, 1, 2, 3, 8, 32]), "delta": rng.choice([0.002, 0.05, 0.3, 0.8, 1e-4, 1e-7, 0.999, rng.uniform(0.001, 0.99)]),
                 "m": rng.choice([1, 2, 3, 5]), "min_window_size": rng.choice([1, 2, 5]),
                 "min_num_instances": rng.choice([1, 2, 5, 10, 20])}
     if cls == "KSWIN":
